@@ -131,12 +131,45 @@ theorem C11_deferred_no_format (f : Frame) (fe : Frontend) (args : List Arg) (dy
   rw [hnil] at this
   exact absurd this List.not_mem_nil
 
+/-! ### finding F16: the map codecs copy their elements -/
+
+/-- `std::map` / `std::unordered_map` as found in the pinned tree (`pairTemp`), and as repaired -/
+def kiMapPinned : KindInfo :=
+  { hasPrefix := true, fastSize := true, fastEncode := false, pushCount := false, mapLike := true, pairTemp := true }
+def kiMapRepaired : KindInfo := { kiMapPinned with pairTemp := false }
+
+/-- a one-element `std::map<std::string, int32_t>` -/
+def mapStringInt (ki : KindInfo) : Arg :=
+  .seq ki (.pair .str (.prim .arith 4)) [.pair (.str [107, 101, 121]) (.prim .arith [1, 0, 0, 0])]
+
+/-- **C11 is false of the pinned map codecs** (proved negation, concrete witness): on a registered thread, with no
+    cached length at all and a record that fits, logging a `std::map<std::string,int>` copies the element — key
+    included — once per pass. The full statement "containers of the listed types never allocate" therefore carries the
+    decidable hypothesis `listed` (which excludes exactly the map families with a non trivially copyable element while
+    `pairTemp` holds); the harness runs the excluded point on the real code. -/
+theorem C11_map_pair_temporary_allocates :
+    (logCall { tsBytes := 8, ptrBytes := 8, nPtrs := 3, lvlBytes := 1 }
+      { registered := true, cache := Cache.init 12, queue := { cap := 131072, used := 0, maxCap := 2147483648 } }
+      [mapStringInt kiMapPinned] false).1 = [Event.pairCopy, Event.pairCopy] ∧
+    listed (mapStringInt kiMapPinned) = false ∧
+    (logCall { tsBytes := 8, ptrBytes := 8, nPtrs := 3, lvlBytes := 1 }
+      { registered := true, cache := Cache.init 12, queue := { cap := 131072, used := 0, maxCap := 2147483648 } }
+      [mapStringInt kiMapRepaired] false).1 = [] ∧
+    listed (mapStringInt kiMapRepaired) = true := by decide
+
+/-- once no container copies its elements (`pairTemp = false` everywhere: obligation `alloc_no_pair_temporaries`),
+    `listed` no longer depends on the container kind: maps of strings are covered by `C11_no_events` like any other
+    container -/
+theorem C11_listed_of_no_pair_temporaries (ki : KindInfo) (es : Shape) (elems : List Arg) (h : ki.pairTemp = false) :
+    listed (.seq ki es elems) = listedL elems := by
+  simp [listed, copiesPairs, h]
+
 /-! ### non-vacuity -/
 
 def frame0 : Frame := { tsBytes := 8, ptrBytes := 8, nPtrs := 3, lvlBytes := 1 }
 def warm : Frontend := { registered := true, cache := Cache.init 12, queue := { cap := 131072, used := 0, maxCap := 2147483648 } }
 def cold : Frontend := { warm with registered := false }
-def kiVec : KindInfo := { hasPrefix := true, fastSize := true, fastEncode := true, pushCount := false, mapLike := false }
+def kiVec : KindInfo := { hasPrefix := true, fastSize := true, fastEncode := true, pushCount := false, mapLike := false, pairTemp := false }
 
 /-- twelve C strings, a `std::string`, a `vector<string>` and a POD on a warm thread: nothing -/
 example : (logCall frame0 warm (List.replicate 12 (.cstr (some [65, 66])) ++
